@@ -257,8 +257,12 @@ func (e *Term) writeTo(s *strings.Builder) {
 		e.Query.writeTo(s)
 		s.WriteByte(')')
 	}
-	for _, e := range e.SuffixList {
-		e.writeTo(s)
+	for i, suffix := range e.SuffixList {
+		if i == 0 && e.Type == TermTypeIdentity && suffix.Index != nil &&
+			suffix.Index.Name == "" && suffix.Index.Str == nil {
+			s.WriteString(" .") // ". .[0]" != ".[0]"
+		}
+		suffix.writeTo(s)
 	}
 }
 
